@@ -230,6 +230,9 @@ impl Engine for E2eEngine {
     fn name(&self) -> &'static str {
         "addrsort-e2e"
     }
+    fn real_time(&self) -> bool {
+        true
+    }
     fn run_case(&self, case: &E2eCase) -> CaseReport {
         // A deviating outcome of a run that took long enough for machine load to explain it is not
         // judged on one run: the case is repeated, and only the same deviation three times in a row counts.
